@@ -117,7 +117,7 @@ private def isKExtra : KComp PD VD → Bool | .extra _ _ => true | _ => false
 theorem serialise_inj {k k' : Inputs PD VD} (h : serialise k = serialise k') : k = k' := by
   unfold serialise at h
   have h0 : k.salt = k'.salt ∧ k.cfg = k'.cfg ∧ k.pkg = k'.pkg ∧ k.analyzers = k'.analyzers ∧
-      k.goVersion = k'.goVersion ∧ k.godebug = k'.godebug ∧
+      k.goVersion = k'.goVersion ∧ k.env = k'.env ∧
       k.extra.map (fun x => (KComp.extra x.1 x.2 : KComp PD VD)) ++ k.depVetx.map (fun x => KComp.vetout x.1 x.2) =
       k'.extra.map (fun x => (KComp.extra x.1 x.2 : KComp PD VD)) ++ k'.depVetx.map (fun x => KComp.vetout x.1 x.2) := by
     simpa using h
@@ -136,14 +136,34 @@ theorem serialise_inj {k k' : Inputs PD VD} (h : serialise k = serialise k') : k
       (by intro a b h; cases a; cases b; simp at h; simp [h]) e.2
   cases k; cases k'; simp_all
 
-/-- The action key determines every input of the analysis, given injective hashes. -/
+/-! ### named inputs -/
+
+theorem restrict_eq_iff (names : List String) (a b : Named) :
+    restrict names a = restrict names b ↔ ∀ n ∈ names, find n a = find n b := by
+  unfold restrict
+  rw [List.map_inj_left]
+  constructor
+  · intro h n hn
+    have := h n hn
+    simpa using this
+  · intro h n hn
+    rw [h n hn]
+
+/-- A reader of fewer names sees no more: if `r ⊆ h`, equal `h`-views give equal `r`-views. -/
+theorem restrict_mono {r h : List String} (hs : ∀ n ∈ r, n ∈ h) {a b : Named}
+    (e : restrict h a = restrict h b) : restrict r a = restrict r b := by
+  rw [restrict_eq_iff] at e ⊢
+  intro n hn
+  exact e n (hs n hn)
+
+/-- The action key determines every input it serialises, given injective hashes. -/
 theorem key_inj (P : Params PD VD D) (hHp : Inj P.Hp) (hV : Inj P.vhash) (hH : Inj P.H)
     {a b : AInputs} (h : key P a = key P b) : a = b := by
   have h1 := serialise_inj (hH _ _ h)
   unfold toKey at h1
   have h2 : a.salt = b.salt ∧ a.cfg = b.cfg ∧
       P.Hp (serialisePkg a.salt a.pkg) = P.Hp (serialisePkg b.salt b.pkg) ∧ a.analyzers = b.analyzers ∧
-      a.goVersion = b.goVersion ∧ a.godebug = b.godebug ∧
+      a.goVersion = b.goVersion ∧ a.env = b.env ∧
       a.depVetx.map (fun x => (x.1, P.vhash x.2)) = b.depVetx.map (fun x => (x.1, P.vhash x.2)) ∧
       a.extra = b.extra := by
     simpa using h1
